@@ -10,15 +10,18 @@ Local Arguments mem : simpl never.
 Local Arguments Nat.ltb : simpl never.
 
 (* ------------------------------------------------------------------ recorded findings *)
-(* derived PartialEq of GhtLeaf compares `forced`: after force_drain, == says false where the
-   sets are equal (and partial_cmp says Equal) *)
+(* FORMER FINDING, fixed in /repo by beb89003dcf: GhtLeaf's derived PartialEq compared the COLT
+   flag `forced`, so after force_drain == said false where the sets are equal (and partial_cmp
+   says Equal).  Former theorem C08_forced_eq_refuted: on [forced_ops] the model answered
+   [true; Some [[1;1]]; Eq; false] where [true; Some [[1;1]]; Eq; true] is specified.  The
+   history is corpus/C08/forced_flag_eq.json (run first on every check); with the fixed ==
+   transcribed, model and specification agree: *)
 Definition forced_ops : list xop :=
   [XInsert false [1; 1]; XForceDrain false; XCmp false; XEq false]%N.
-Lemma forced_eq_refuted :
-  exists ops, ops = forced_ops /\
-    xmodel_run KSet 2 0 ops = [XABool true; XAOptRows (Some [[1; 1]%N]); XACmp (PSome Eq); XABool false] /\
-    xspec_run KSet 0 ops = [XABool true; XAOptRows (Some [[1; 1]%N]); XACmp (PSome Eq); XABool true].
-Proof. exists forced_ops. repeat split; vm_compute; reflexivity. Qed.
+Lemma forced_eq_now_agrees :
+  xmodel_run KSet 2 0 forced_ops = xspec_run KSet 0 forced_ops /\
+  xspec_run KSet 0 forced_ops = [XABool true; XAOptRows (Some [[1; 1]%N]); XACmp (PSome Eq); XABool true].
+Proof. split; vm_compute; reflexivity. Qed.
 
 (* an emptied child stays in the children map and counts as content *)
 Definition empty_child_ops : list xop :=
